@@ -1,4 +1,4 @@
-CONSTANTS N = 5 Prios = {0,1,2,3} MaxSize = 5
+CONSTANTS N = 6 Prios = {0,1,2} MaxSize = 6
 SPECIFICATION Spec
 INVARIANTS TypeOK DrainSorted
 PROPERTIES PopIsGreatest TakesOne PushAdds
